@@ -43,7 +43,8 @@ CLAIMED = {
                      "read back by a model of shell word lexing as exactly one word equal to the entry. Placeholder discovery/expansion and the real shells are NOT claimed."),
     "C16": dict(ref="DESIGN.md §3 C16", note=NOTE + "; partial: request-handling logic only; sockets, timeouts and action execution are outside",
                 text="The authorisation / framing logic of handleHttpRequest is decided for all requests assembled from the token grammar (any header order, key, "
-                     "content length, body, early close) under every cut of the stream into reads, with the real bufio.Scanner and split closure."),
+                     "content length, body, early close) under every cut of the stream into reads, with the real bufio.Scanner and split closure; startHttpServer is decided with "
+                     "net.Listen modelled (remote listener refused without key; the enforced key is exactly the configured one) and parseListenAddress against an independent parser."),
     "C07": dict(ref="DESIGN.md §3 C07", note=NOTE + "; partial: lifted closures of Run only; framing, exit codes and interactive accept are outside",
                 text="The streaming-filter pusher and both item builders of Run are lifted verbatim from the current source and executed on symbolic records: every printed "
                      "line must be an original input record, and AsString must return the input bytes under --with-nth and --header-lines."),
